@@ -556,83 +556,7 @@ func runC01(w *World, r *Report) {
 
 	// ---- copy-partition: the copies of a node's output are partitioned between edge successors and branch conditions
 	r.Rule("C01.copy-partition", "resolveCompletedTasks: len(writeTo)+2*len(branches) copies; branch conditions read the copies from index len(writeTo)+len(branches) on", 2)
-	{
-		rct := w.Fn("compose", "runner.resolveCompletedTasks")
-		cbr := w.Fn("compose", "runner.calculateBranch")
-		ci := w.Fn("compose", "copyItem")
-		fWT := w.Field("compose", "chanCall", "writeTo")
-		fWB := w.Field("compose", "chanCall", "writeToBranches")
-		// linear form: coefficient of len(writeTo), len(writeToBranches), constant
-		var lin func(v ssa.Value, d int) (a, b, c int64, ok bool)
-		lin = func(v ssa.Value, d int) (int64, int64, int64, bool) {
-			if d > 8 {
-				return 0, 0, 0, false
-			}
-			if k, ok := constInt(v); ok {
-				return 0, 0, k, true
-			}
-			switch x := v.(type) {
-			case *ssa.Call:
-				if isBuiltin(x, "len") {
-					if isLoadOfField(x.Call.Args[0], fWT) {
-						return 1, 0, 0, true
-					}
-					if isLoadOfField(x.Call.Args[0], fWB) {
-						return 0, 1, 0, true
-					}
-				}
-			case *ssa.BinOp:
-				a1, b1, c1, ok1 := lin(x.X, d+1)
-				a2, b2, c2, ok2 := lin(x.Y, d+1)
-				if !ok1 || !ok2 {
-					return 0, 0, 0, false
-				}
-				switch x.Op {
-				case token.ADD:
-					return a1 + a2, b1 + b2, c1 + c2, true
-				case token.SUB:
-					return a1 - a2, b1 - b2, c1 - c2, true
-				case token.MUL:
-					if a1 == 0 && b1 == 0 {
-						return a2 * c1, b2 * c1, c2 * c1, true
-					}
-					if a2 == 0 && b2 == 0 {
-						return a1 * c2, b1 * c2, c1 * c2, true
-					}
-				}
-			}
-			return 0, 0, 0, false
-		}
-		var first ssa.CallInstruction
-		for _, c := range callsTo(rct, ci) {
-			if first == nil || instrDominates(c, first) {
-				first = c
-			}
-		}
-		if first == nil {
-			r.Fail("C01.copy-partition", "resolveCompletedTasks copies the output", rct.Pos(), "no copyItem call")
-		} else {
-			a, b, c, ok := lin(first.Common().Args[1], 0)
-			r.Check(ok && a == 1 && b == 2 && c == 0, "C01.copy-partition", "copy count = len(writeTo) + 2*len(writeToBranches)", first.Pos(), "one copy per edge successor, one per branch condition, one per branch result", fmt.Sprintf("copy count is %d*len(writeTo)+%d*len(branches)+%d (recognised=%v)", a, b, c, ok))
-		}
-		fanoutCountCheck(w, r, "C01.copy-partition")
-		for _, c := range callsTo(rct, cbr) {
-			good := false
-			det := ""
-			for _, arg := range c.Common().Args {
-				sl, ok := arg.(*ssa.Slice)
-				if !ok || sl.Low == nil {
-					continue
-				}
-				a, b, k, ok := lin(sl.Low, 0)
-				det = fmt.Sprintf("%d*len(writeTo)+%d*len(branches)+%d", a, b, k)
-				if ok && a == 1 && b == 1 && k == 0 && sl.High == nil {
-					good = true
-				}
-			}
-			r.Check(good, "C01.copy-partition", "branch conditions read copies [len(writeTo)+len(branches):]", c.Pos(), "disjoint from the copies delivered to successors", "branch conditions are handed copies starting at "+det+": a branch condition consumes the very stream copy that is also delivered to an edge successor (stream mode only)")
-		}
-	}
+	copyPartitionCheck(w, r, "C01.copy-partition")
 
 	// ---- merge-pure
 	r.Rule("C01.merge-pure", "mergeValues / mergeMap never write through their operands", 2)
@@ -840,4 +764,84 @@ func chainEndOnceFlag(w *World) (*types.Var, ssa.Instruction) {
 		}
 	}
 	return nil, nil
+}
+
+// copyPartitionCheck: shared by C01.copy-partition and C04.copy-partition (stream paradigms only: a branch condition that
+// reads the copy meant for an edge successor drains it — Invoke never shows it, all copies are one value there).
+func copyPartitionCheck(w *World, r *Report, rule string) {
+	rct := w.Fn("compose", "runner.resolveCompletedTasks")
+	cbr := w.Fn("compose", "runner.calculateBranch")
+	ci := w.Fn("compose", "copyItem")
+	fWT := w.Field("compose", "chanCall", "writeTo")
+	fWB := w.Field("compose", "chanCall", "writeToBranches")
+	// linear form: coefficient of len(writeTo), len(writeToBranches), constant
+	var lin func(v ssa.Value, d int) (a, b, c int64, ok bool)
+	lin = func(v ssa.Value, d int) (int64, int64, int64, bool) {
+		if d > 8 {
+			return 0, 0, 0, false
+		}
+		if k, ok := constInt(v); ok {
+			return 0, 0, k, true
+		}
+		switch x := v.(type) {
+		case *ssa.Call:
+			if isBuiltin(x, "len") {
+				if isLoadOfField(x.Call.Args[0], fWT) {
+					return 1, 0, 0, true
+				}
+				if isLoadOfField(x.Call.Args[0], fWB) {
+					return 0, 1, 0, true
+				}
+			}
+		case *ssa.BinOp:
+			a1, b1, c1, ok1 := lin(x.X, d+1)
+			a2, b2, c2, ok2 := lin(x.Y, d+1)
+			if !ok1 || !ok2 {
+				return 0, 0, 0, false
+			}
+			switch x.Op {
+			case token.ADD:
+				return a1 + a2, b1 + b2, c1 + c2, true
+			case token.SUB:
+				return a1 - a2, b1 - b2, c1 - c2, true
+			case token.MUL:
+				if a1 == 0 && b1 == 0 {
+					return a2 * c1, b2 * c1, c2 * c1, true
+				}
+				if a2 == 0 && b2 == 0 {
+					return a1 * c2, b1 * c2, c1 * c2, true
+				}
+			}
+		}
+		return 0, 0, 0, false
+	}
+	var first ssa.CallInstruction
+	for _, c := range callsTo(rct, ci) {
+		if first == nil || instrDominates(c, first) {
+			first = c
+		}
+	}
+	if first == nil {
+		r.Fail(rule, "resolveCompletedTasks copies the output", rct.Pos(), "no copyItem call")
+	} else {
+		a, b, c, ok := lin(first.Common().Args[1], 0)
+		r.Check(ok && a == 1 && b == 2 && c == 0, rule, "copy count = len(writeTo) + 2*len(writeToBranches)", first.Pos(), "one copy per edge successor, one per branch condition, one per branch result", fmt.Sprintf("copy count is %d*len(writeTo)+%d*len(branches)+%d (recognised=%v)", a, b, c, ok))
+	}
+	fanoutCountCheck(w, r, rule)
+	for _, c := range callsTo(rct, cbr) {
+		good := false
+		det := ""
+		for _, arg := range c.Common().Args {
+			sl, ok := arg.(*ssa.Slice)
+			if !ok || sl.Low == nil {
+				continue
+			}
+			a, b, k, ok := lin(sl.Low, 0)
+			det = fmt.Sprintf("%d*len(writeTo)+%d*len(branches)+%d", a, b, k)
+			if ok && a == 1 && b == 1 && k == 0 && sl.High == nil {
+				good = true
+			}
+		}
+		r.Check(good, rule, "branch conditions read copies [len(writeTo)+len(branches):]", c.Pos(), "disjoint from the copies delivered to successors", "branch conditions are handed copies starting at "+det+": a branch condition consumes the very stream copy that is also delivered to an edge successor (stream mode only)")
+	}
 }
